@@ -4,7 +4,7 @@
    message crosses (frontend endpoint gates, request-server gates, daemon
    handler) are modelled as far as they decide whether the handler runs.
    Tied to the code by the correspondence family "dmn". *)
-From VV Require Import Base.Bits Base.Rt Base.Val Gen.GenConsts Gen.GenRoute Gen.GenBitmap.
+From VV Require Import Base.Bits Base.Rt Base.Val Gen.GenConsts Gen.GenRoute Gen.GenBitmap Gen.GenCtl.
 Open Scope string_scope.
 Open Scope list_scope.
 Open Scope N_scope.
@@ -107,7 +107,7 @@ Definition update_reg (s : dstate) (r : ring) (q : N) : dstate :=
       | None => s
       | Some (t, idx) =>
           let without := filter (fun g => negb ((Nat.eqb (g_thread g) t) && kfd_eqb (g_kfd g) k)) (d_regs s) in
-          if r_ready r && r_enabled r
+          if ctl_reg_wanted (r_ready r) (r_enabled r)     (* REGENERATED (Gen.GenCtl) *)
           then (if existsb (fun g => (Nat.eqb (g_thread g) t) && kfd_eqb (g_kfd g) k) (d_regs s)
                 then s                                   (* EEXIST is ignored: the old entry (and its id) stays *)
                 else set_regs s (d_regs s ++ [{| g_thread := t; g_kfd := k; g_idx := idx |}]))
@@ -211,7 +211,7 @@ Definition h_set_vring_kick (s : dstate) (q : N) (file : N) : dstate * dres :=
                  else s0 in
       let r1 := with_ring r (r_ready r) (r_enabled r) (Some k) (r_call r) in
       let s1 := close_kick (put_ring s0' q r1) (r_kick r) in
-      if negb (r_ready r1) then
+      if ctl_needs_init (r_ready r1) (o_is_some (r_kick r1)) then
         let r2 := with_ring r1 true (r_enabled r1) (r_kick r1) (r_call r1) in
         (update_reg (put_ring s1 q r2) r2 q, DOk [])
       else (update_reg s1 r1 q, DOk [])
@@ -237,7 +237,7 @@ Definition h_set_vring_call (s : dstate) (q : N) (file : N) : dstate * dres :=
   | Some r =>
       let r1 := with_ring r (r_ready r) (r_enabled r) (r_kick r) (Some file) in
       let s1 := put_ring s q r1 in
-      if negb (r_ready r1) && o_is_some (r_kick r1) then
+      if ctl_needs_init (r_ready r1) (o_is_some (r_kick r1)) then
         let r2 := with_ring r1 true (r_enabled r1) (r_kick r1) (r_call r1) in
         (update_reg (put_ring s1 q r2) r2 q, DOk [])
       else (s1, DOk [])
